@@ -18,6 +18,9 @@ Clause ids (`what`), `<Src>To<Tgt>` one of the 16 converter names (OsuToQua ... 
   <Src>To<Tgt>.hold_lengths     every hold ends at the same time (start + length)
   <Src>To<Tgt>.tempo_timeline   time -> active bpm is the same step function from the source's first tempo point
                                 up to the end of its last object
+  <Src>To<Tgt>.declared_key_count   ONE id for one root cause: files whose top column holds no object (the file still
+                                declares its key count: CircleSize / Mode / chart type / OJN = 7) report this clause,
+                                whatever base clause broke; not generated for BMS sources (a BMS text declares none)
   <Src>To<Tgt>.start_offset     ONE id for one root cause: the three clauses above fail, but hold again after moving
                                 the whole written timeline by one constant (the detail gives it); only then, and
                                 instead of them
@@ -124,10 +127,13 @@ class Score:
         return dict(objs=objs, tempo=[(self.ms(b), v) for b, v in self.tempo])
 
 
-def gen_objs(rng, keys, n_meas):
-    """Objects of one chart: per column a time-ordered, non-overlapping sequence on the 1/48-beat grid; the top
-    column is always used (several converters derive the key count from the highest used column)."""
-    cols = sorted(set(rng.sample(range(keys), rng.randrange(1, min(keys, 5) + 1))) | {keys - 1})
+def gen_objs(rng, keys, n_meas, top_used=True):
+    """Objects of one chart: per column a time-ordered, non-overlapping sequence on the 1/48-beat grid.  top_used:
+    the top column holds an object (the plain family); otherwise it stays empty (family `declared_key_count`)."""
+    if top_used or keys == 1:
+        cols = sorted(set(rng.sample(range(keys), rng.randrange(1, min(keys, 5) + 1))) | {keys - 1})
+    else:
+        cols = sorted(rng.sample(range(keys - 1), rng.randrange(1, min(keys - 1, 5) + 1)))
     objs = []
     for c in cols:
         cand = []
@@ -145,23 +151,24 @@ def gen_objs(rng, keys, n_meas):
     return dict(keys=keys, objs=objs)
 
 
-def gen_score(rng, keys_per_chart, with_t0):
-    n_meas = rng.randrange(2, 7)
+def gen_score(rng, keys_per_chart, with_t0, top_used=True):
+    n_meas = rng.randrange(2, 7) if rng.random() < 0.92 else rng.randrange(20, 61)  # a few long scores
     n_t = min(rng.choice((1, 2, 2, 3, 4)), n_meas)
     at = [0] + sorted(rng.sample(range(1, n_meas), n_t - 1))
     tempo, prev = [], None
     for m in at:
-        v = rng.choice([b for b in BPM_POOL if b != prev])
+        v = rng.choice([b for b in BPM_POOL if b != prev or rng.random() < 0.15])  # sometimes a redundant tempo point
         tempo.append([m, v])
         prev = v
-    return dict(t0=rng.choice(T0_POOL) if with_t0 else 0, tempo=tempo, charts=[gen_objs(rng, k, n_meas) for k in keys_per_chart])
+    return dict(t0=rng.choice(T0_POOL) if with_t0 else 0, tempo=tempo, charts=[gen_objs(rng, k, n_meas, top_used) for k in keys_per_chart])
 
 
 def gen_case(rng, src, tgt):
     keys = _keys_for(src, tgt)
     k = rng.choice(keys)
     n_charts = 3 if src == "o2j" else rng.choice((1, 1, 2)) if src == "sm" else 1
-    score = gen_score(rng, [k] + [rng.choice(keys) for _ in range(n_charts - 1)], with_t0=src in ("osu", "qua", "sm"))
+    top_used = src == "bms" or rng.random() >= 0.1  # a BMS text declares no key count: highest used lane + 1 IS its key count
+    score = gen_score(rng, [k] + [rng.choice(keys) for _ in range(n_charts - 1)], with_t0=src in ("osu", "qua", "sm"), top_used=top_used)
     case = dict(src=src, tgt=tgt, seed=rng.randrange(1 << 30), score=score)
     if src in ("osu", "qua"):
         case["int_ms"] = rng.random() < 0.5  # object times written as whole ms (as the editors do) / exact decimals
@@ -198,6 +205,11 @@ def simple_cases(src, tgt):
                 if tgt == "bms":
                     case["out_layout"] = next(n for n, lanes in BMS_LANES.items() if lanes >= k + ((src, tgt) == ("o2j", "bms")))
                 out.append(case)
+    if src != "bms" and 7 in _keys_for(src, tgt):  # smallest member of the family declared_key_count: 7 keys, columns 0 and 4 used
+        case = dict(out[0], score=dict(t0=0, tempo=[[0, "120"]], charts=[dict(keys=7, objs=[[0, "1", "0"], [4, "2", "0"]]) for _ in out[0]["score"]["charts"]]))
+        if tgt == "bms":
+            case["out_layout"] = "BME"
+        out.append(case)
     return out
 
 
@@ -731,17 +743,17 @@ def run_case(case):
         try:
             m = real_read(case, payload)
         except Exception as ex:
-            return [(f"{pair}.no_exception", _exc("read", ex))]
+            return _by_family(case, pair, [(f"{pair}.no_exception", _exc("read", ex))])
         try:
             outs = real_convert(case, m)
         except Exception as ex:
-            return [(f"{pair}.no_exception", _exc("convert", ex))]
+            return _by_family(case, pair, [(f"{pair}.no_exception", _exc("convert", ex))])
         texts = []
         for i, o in enumerate(outs):
             try:
                 texts.append(real_write(case, o))
             except Exception as ex:
-                return [(f"{pair}.no_exception", _exc(f"write (chart {i})", ex))]
+                return _by_family(case, pair, [(f"{pair}.no_exception", _exc(f"write (chart {i})", ex))])
     fails = []
     if len(texts) != len(want):
         return [(f"{pair}.objects", f"the source file holds {len(want)} chart(s), the conversion gave {len(texts)} file(s)")]
@@ -752,12 +764,43 @@ def run_case(case):
             fails.append((f"{pair}.valid", tag + "; ".join(bad)[:600]))
         if got is not None:
             fails += [(f"{pair}.{a}", tag + d) for a, d in compare_with_offset_family(case, w, got)]
+    return _by_family(case, pair, fails)
+
+
+def _top_column_unused(case):
+    return case["src"] != "bms" and any(max(o[0] for o in ch["objs"]) < ch["keys"] - 1 for ch in case["score"]["charts"])
+
+
+def _uniq(fails):
     seen, uniq = set(), []
     for w_, d in fails:  # one detail per clause
         if w_ not in seen:
             seen.add(w_)
             uniq.append((w_, d))
     return uniq
+
+
+def _by_family(case, pair, fails):
+    """One detail per clause.  A file whose top column holds no object (its declared key count exceeds the highest
+    used column + 1) reports the clauses that ALSO fail for its twin - the same file plus one hit in the top column -
+    under their own ids, and everything the twin does not show under ONE id, `declared_key_count` (one root cause,
+    one id: the key count was taken from the used columns instead of the file's declaration)."""
+    fails = _uniq(fails)
+    if not fails or not _top_column_unused(case):
+        return fails
+    import copy
+
+    twin = copy.deepcopy(case)
+    for ch in twin["score"]["charts"]:
+        if max(o[0] for o in ch["objs"]) < ch["keys"] - 1:
+            ch["objs"].append([ch["keys"] - 1, "1/2", "0"])
+    twin_ids = {w for w, _ in run_case(twin)}
+    own = [f for f in fails if f[0] not in twin_ids]
+    if not own:
+        return fails
+    ch = next(ch for ch in case["score"]["charts"] if max(o[0] for o in ch["objs"]) < ch["keys"] - 1)
+    detail = f"the source file declares {ch['keys']} keys and uses columns {sorted({o[0] for o in ch['objs']})}; with one more hit, in column {ch['keys'] - 1}, the same file passes these clause(s): {[w for w, _ in own]}; first: {own[0][1]}"
+    return [f for f in fails if f[0] in twin_ids] + [(f"{pair}.declared_key_count", detail)]
 
 
 # ============================================================================= the bounded stand-ins
@@ -780,8 +823,8 @@ def _drive(rep, src, n_quick, n_thorough):
         "o2j": "3 difficulties sharing the tempo events (header tempo + channel-1 events at measure starts), 7 columns, hits / head-tail pairs across packages and measures; O2JToBMS called with its default move_right_by=1 (expected column + 1) or with 0",
     }[src]
     rep.bound = (
-        f"per target ({[NAME[t] for t in tgts]}) first the smallest files (per key count one hit, then hit + hold + hit with a tempo change; beat 0 at 0 / 500 ms), then {N} generated {NAME[src]} source files = {N * len(tgts)} random cases: 2-6 measures of 4/4, 1-4 tempo points ON MEASURE LINES (bpm pool {list(BPM_POOL)}: <= 3 decimals, float32-exact), "
-        f"beat 0 at {sorted(set(T0_POOL)) if src in ('osu', 'qua', 'sm') else [0]} ms, 1-5 used columns incl. always the top one, 1-4 objects per column at k/d beat, d in {list(DENS)} (the 1/48-beat grid), 40% holds of {list(HOLD_BEATS)} beats (across tempo changes and measure lines), "
+        f"per target ({[NAME[t] for t in tgts]}) first the smallest files (per key count one hit, then hit + hold + hit with a tempo change; beat 0 at 0 / 500 ms), then {N} generated {NAME[src]} source files = {N * len(tgts)} random cases: 2-6 measures of 4/4 (8%: 20-60 measures), 1-4 tempo points ON MEASURE LINES (15% of the changes repeat the previous bpm) (bpm pool {list(BPM_POOL)}: <= 3 decimals, float32-exact), "
+        f"beat 0 at {sorted(set(T0_POOL)) if src in ('osu', 'qua', 'sm') else [0]} ms, 1-5 used columns incl. the top one (in 10% of the osu / Quaver / .sm / O2Jam files the top column is left empty instead: family declared_key_count), 1-4 objects per column at k/d beat, d in {list(DENS)} (the 1/48-beat grid), 40% holds of {list(HOLD_BEATS)} beats (across tempo changes and measure lines), "
         f">= 1/4 beat between objects of one column; key counts: Quaver side {list(QUA_KEYCOUNTS)}, .sm side {list(SM_TYPE)}, osu <-> BMS 1..9, O2Jam 7; BMS target layout = any layout with enough lanes; metadata text plain ASCII (no ':' ';' '//' '#', Shift-JIS encodable). {extra}. "
         "Kept away from (known limitations): tempo changes off measure lines (.sm #BPMS beats have two decimals; reseating of changes < 0.001 measure apart), BMS lines out of time order, objects before the first tempo point, stops, measure-length changes, SM mines / rolls / lifts / fakes"
     )
